@@ -137,6 +137,8 @@ CORPUS = [
     dict(name="C05-legacy-oversize-word-is-clean-end", kind="break", props=["C05"], file="internal/lz4stream/block.go",
          old="if f.isLegacy() && cumx != 0 && cum == cumx {", new="if f.isLegacy() && cum == cumx {",
          old2="\t\treturn x, lz4errors.ErrOptionInvalidBlockSize", new2="\t\treturn 0, lz4errors.ErrOptionInvalidBlockSize"),
+    dict(name="C09-legacy-option-keeps-legacy-block-size", kind="break", props=["C09", "C17"], file="options.go",
+         old="\t\t\tif !legacy && !rw.frame.Descriptor.Flags.BlockSizeIndex().IsValid() {", new="\t\t\tif false && !legacy && !rw.frame.Descriptor.Flags.BlockSizeIndex().IsValid() {"),
     # ---- renamed locals (the `locals` line of the contract maps the old names by position) ----
     dict(name="C10-benign-rename-anchor", kind="benign", props=["C10"], file="internal/lz4block/block.go",
          regex=r"\banchor\b", new="anch"),
